@@ -21,6 +21,9 @@ it never calls the code under test:
 * O3  a ``serve`` call that returns normally was preceded by a successful hook run for its kind;
 * O4  whenever no hook run is in progress, a visible ``server.transport_kind == K`` implies an earlier successful hook
       run of kind K (a raising run must not leave its binding recorded).
+
+First HTTP requests are a unary call, a stream ``/init`` or a stream ``/exchange`` whose state token was minted by
+a twin app sharing the key (a pre-forked or restarted worker whose first request is a continuation).
 """
 
 from __future__ import annotations
